@@ -664,33 +664,15 @@ func (a Int) M__complex__() (Object, error) {
 }
 
 func (a Int) M__round__(digits Object) (Object, error) {
-	if b, ok := convertToInt(digits); ok {
-		if b >= 0 {
-			return a, nil
-		}
-		// Promote to BigInt if 10**-b > 2**63 or a == IntMin
-		if b <= -19 || a == IntMin {
-			return (*BigInt)(big.NewInt(int64(a))).M__round__(digits)
-		}
-		negative := false
-		r := a
-		if r < 0 {
-			r = -r
-			negative = true
-		}
-		scale := Int(math.Pow(10, float64(-b)))
-		digits := r % scale
-		r -= digits
-		// Round
-		if 2*digits >= scale {
-			r += scale
-		}
-		if negative {
-			r = -r
-		}
-		return r, nil
+	if digits == None {
+		return a, nil
 	}
-	return cantConvert(digits, "int")
+	if b, ok := convertToInt(digits); ok && b >= 0 {
+		return a, nil
+	}
+	// Round to a negative number of digits with BigInt as 10**-digits
+	// or the result may not fit in an Int
+	return (*BigInt)(big.NewInt(int64(a))).M__round__(digits)
 }
 
 // Rich comparison
